@@ -174,6 +174,7 @@ def on_match(call):
 
 
 def install():
+    probe.enable_recall("C12.recall", every=5)
     probe.instrument("esutil.htm.htm:Matcher.__init__", [on_matcher_init])
     probe.instrument("esutil.htm.htm:Matcher.match", [on_match])
     probe.instrument("esutil.htm.htm:HTM.match", [])
